@@ -49,7 +49,7 @@ void array<Value, Index>::resize(const size_type    size,
 
   m_global_size      = size;
   m_small_block_size = size / m_comm.size();
-  m_large_block_size = m_small_block_size + ((size / m_comm.size()) > 0);
+  m_large_block_size = m_small_block_size + ((size % m_comm.size()) > 0);
 
   m_local_vec.resize(
       m_small_block_size + (m_comm.rank() < (size % m_comm.size())),
